@@ -36,13 +36,20 @@ class ClaimNet:
         self.probes = probes
         self.probe_problems = []
         self.nprobes = 0
+        self.stack_of = []
+        by_key = {}
         for i, c in enumerate(sc['cas']):
-            st = Stack(bus, 'S%d' % i, dll=sc.get('dll', 'j1939-21'))
+            key = c.get('stack', i)          # CAs with the same 'stack' value live on one ECU (default: one ECU each)
+            if key in by_key:
+                st = by_key[key]
+            else:
+                st = by_key[key] = Stack(bus, 'S%d' % i, dll=sc.get('dll', 'j1939-21'))
+                self.stacks.append(st)
+            self.stack_of.append(st)
             nm = j1939.Name(arbitrary_address_capable=c['aac'], industry_group=2, vehicle_system=5,
                             function=0x81, manufacturer_code=0x123, identity_number=c['idn'] + (seed % 7) * 16)
             ca = CA(nm, c['addr'], bypass_address_claim=bool(c.get('bypass')))
             st.ecu.add_ca(controller_application=ca)
-            self.stacks.append(st)
             self.cas.append(ca)
             self.names.append(R.name_value({'arbitrary_address_capable': c['aac'], 'industry_group': 2, 'vehicle_system': 5,
                                             'function': 0x81, 'manufacturer_code': 0x123,
@@ -67,7 +74,9 @@ class ClaimNet:
         for f in self.bus.log:
             if f.pf == CLAIM_PF and len(f.data) == 8:
                 v = int.from_bytes(f.data, 'little')
-                out.append((f.t, f.idx, int(f.src[1:]), f.sa, v))
+                # the claimant is identified by the NAME in the frame (several CAs may share an ECU)
+                si = self.names.index(v) if v in self.names else int(f.src[1:])
+                out.append((f.t, f.idx, si, f.sa, v))
         return out
 
     def lost_address(self, i):
@@ -81,9 +90,10 @@ class ClaimNet:
             last = (-1, self.sc['cas'][i]['addr'])      # holds its configured address without ever having claimed it
         if last is None or last[1] == 254:
             return True
-        got = set(k for (_t, k) in self.stacks[i].rx_log)
+        got = set(k for (_t, k) in self.stack_of[i].rx_log)
         for (t, idx, si, sa, v) in self.claims():
-            if si != i and idx > last[0] and sa == last[1] and v < self.names[i] and idx in got:
+            same_ecu = si < len(self.stack_of) and self.stack_of[si] is self.stack_of[i]
+            if si != i and idx > last[0] and sa == last[1] and v < self.names[i] and (idx in got or same_ecu):
                 return True
         return False
 
@@ -328,6 +338,18 @@ def configs(tier):
                             cas = [{'idn': perm[i], 'aac': aac[i], 'addr': pat[i], 'delay': dl[i]} for i in range(n)]
                             sc = {'cas': cas, 'base_lat': base}
                             out.append((sc, 0))
+        # two CAs on one ECU (the bus does not echo a node's own frames to it): same preferred address, or an
+        # arbitrary-address-capable CA that is pushed onto the address of its sibling by a CA of another ECU
+        if n <= 3:
+            for perm in perms:
+                for aac in aacs:
+                    for pat in ([128] * n, [128, 129, 128][:n], [129, 128, 128][:n], [10] * n):
+                        for dl in (tuple([0.0] * n), tuple(DELAYS[1:n + 1]), tuple(reversed(DELAYS[1:n + 1]))):
+                            for together in ((0, 1), (1, 2), (0, 2)) if n == 3 else ((0, 1),):
+                                cas = [{'idn': perm[i], 'aac': aac[i], 'addr': pat[i], 'delay': dl[i]} for i in range(n)]
+                                cas[together[0]]['stack'] = 'shared'
+                                cas[together[1]]['stack'] = 'shared'
+                                out.append(({'cas': cas, 'base_lat': 1e-3}, 0))
         # the top of the address range: the next address after 253 is the null address - there is none left to re-claim
         if n <= 3:
             for perm in perms:
